@@ -84,6 +84,8 @@ def run(mod, tier, seed):
         rep.add({'scn': s, 'faults': []}, o)
         if 'harness' in o:
             continue
+        if o.get('klass') == 'does-not-terminate':
+            continue
         budget = 20 * len(o['ops']) + 100
         l1_cases += _cases(mod, s, [], o['ops'], 0, 1, tier, budget)
         st = _cases(mod, s, [], o['ops'], 0, 1, tier, budget, sticky=True)
@@ -94,8 +96,8 @@ def run(mod, tier, seed):
     l2_cases = []
     for c, o in zip(l1_cases, l1):
         rep.add(c, o)
-        if 'harness' in o or c['faults'][0].get('sticky'):
-            continue
+        if 'harness' in o or c['faults'][0].get('sticky') or o.get('klass') == 'does-not-terminate':
+            continue          # a run that never finishes has an unbounded trace: nothing to place a second fault on
         l2_cases += _cases(mod, c['scn'], c['faults'], o['ops'], c['faults'][0]['at'], 2, tier, c['budget'])
     levels['2'] = len(l2_cases)
     l2 = pool.map_cases(__name__, 'run_case', l2_cases)
